@@ -31,6 +31,8 @@ type purityItem struct {
 	// Rot rotates the order of the Generate option sets (the names keep the original indices): which
 	// option set a process sees FIRST must not matter to any later call
 	Rot int `json:"rot"`
+	// Reverse walks the (rotated) option sets backwards
+	Reverse bool `json:"reverse"`
 }
 
 type callRec struct {
@@ -62,7 +64,15 @@ func opPurity(_ rfItem, raw json.RawMessage, e *core.Emitter) any {
 	if err != nil {
 		return map[string]any{"read_err": err.Error()}
 	}
-	snap, _ := json.Marshal(f)
+	// The File is the caller's: its slices may have spare capacity (a File assembled with append has).
+	// Give every slice four spare slots; whatever the calls do, those slots belong to the caller
+	// and must still be zero afterwards (snapshot below: the slices at full capacity).
+	f.Structs, f.Messages, f.Enums, f.Unions, f.Consts, f.Imports = withSpare(f.Structs), withSpare(f.Messages), withSpare(f.Enums), withSpare(f.Unions), withSpare(f.Consts), withSpare(f.Imports)
+	fullSnap := func() []byte {
+		j, _ := json.Marshal([]any{f, f.Structs[:cap(f.Structs)], f.Messages[:cap(f.Messages)], f.Enums[:cap(f.Enums)], f.Unions[:cap(f.Unions)], f.Consts[:cap(f.Consts)], f.Imports[:cap(f.Imports)]})
+		return j
+	}
+	snap := fullSnap()
 	caps := map[string][2]int{"structs": {len(f.Structs), cap(f.Structs)}, "messages": {len(f.Messages), cap(f.Messages)},
 		"enums": {len(f.Enums), cap(f.Enums)}, "unions": {len(f.Unions), cap(f.Unions)}, "consts": {len(f.Consts), cap(f.Consts)}}
 	start := time.Now()
@@ -79,6 +89,11 @@ func opPurity(_ rfItem, raw json.RawMessage, e *core.Emitter) any {
 	if n := len(ops); n > 1 && it.Rot%n != 0 {
 		k := it.Rot % n
 		ops = append(append([]func() (string, []byte, error){}, ops[k:]...), ops[:k]...)
+	}
+	if it.Reverse {
+		for i, j := 0, len(ops)-1; i < j; i, j = i+1, j-1 {
+			ops[i], ops[j] = ops[j], ops[i]
+		}
 	}
 	ops = append(ops, func() (string, []byte, error) { return "Validate", nil, f.Validate() })
 	ops = append(ops, func() (string, []byte, error) {
@@ -134,7 +149,7 @@ func opPurity(_ rfItem, raw json.RawMessage, e *core.Emitter) any {
 			run(-1, &recs, op)
 		}
 	}
-	afterSeq, _ := json.Marshal(f)
+	afterSeq := fullSnap()
 	var wg sync.WaitGroup
 	gate := make(chan struct{})
 	perG := make([][]callRec, it.G)
@@ -163,9 +178,15 @@ func opPurity(_ rfItem, raw json.RawMessage, e *core.Emitter) any {
 	for _, rs := range perG {
 		recs = append(recs, rs...)
 	}
-	after, _ := json.Marshal(f)
+	after := fullSnap()
 	return map[string]any{"calls": recs, "file_unchanged_after_sequential": bytes.Equal(snap, afterSeq), "file_unchanged_after_concurrent": bytes.Equal(snap, after),
 		"caps": caps, "ops": len(ops)}
+}
+
+func withSpare[T any](s []T) []T {
+	n := make([]T, len(s), len(s)+4)
+	copy(n, s)
+	return n
 }
 
 // barrier is a reusable rendezvous of n goroutines.
